@@ -6,7 +6,7 @@
 //@ fns: CatchGradualDifficulty::next (Iterator::next)
 //@ bound: unbounded: every number of palpable objects N, every position idx
 //@ clause: for ALL N: pre: invariant. post: Some iff idx < N (values remain); then idx' = idx+1 and the attributes' counted view grows by exactly count[idx] (the i-th value counts exactly the first i objects); else the calculator is unchanged; invariant preserved; every index (count[idx], diff_objects[idx-1]) is in bounds; no arithmetic overflow
-//@ obl: id=U12.catch.len.verus fn=CatchGradualDifficulty::len props=C15,C05 tier=quick kind=proof twin=yes
+//@ obl: id=U12.catch.len.verus fn=CatchGradualDifficulty::len props=C15,C05 tier=quick kind=proof twin=yes pair=U12.catch.protocol.n1
 //@ fns: CatchGradualDifficulty::len (ExactSizeIterator::len)
 //@ bound: unbounded
 //@ clause: for ALL N: under the invariant len() == N - idx (number of values still to come), without underflow
